@@ -1,4 +1,5 @@
 import Rare.Proofs.C09C10Std
+import Rare.Props.C10
 import Rare.Proofs.C09Utf8Char
 import Rare.Proofs.C09FuelStd
 import Rare.Proofs.C09Frag
